@@ -63,7 +63,7 @@ def doSend (s : Sess) (tick : Int) (serial : Nat) : Sess × String :=
   let base := s.sender.deltaTick.getD (-1)
   match sendSnap ops s.sender tick serial with
   | .panic _ => ({}, "panic")
-  | .ok (st', ms) =>
+  | .ok (st', _, ms) =>
     let len := (ms.map fun (m : Msg) => match m with
       | Msg.snap _ _ _ _ _ d => d.length
       | Msg.single _ _ _ d => d.length
